@@ -9,6 +9,7 @@ use asynchronous_codec::FramedWrite;
 use blockstore::Blockstore;
 use cid::CidGeneric;
 use fnv::{FnvHashMap, FnvHashSet};
+#[cfg(not(beetswap_verif))]
 use futures_timer::Delay;
 use futures_util::future::{AbortHandle, Abortable, FutureExt};
 use futures_util::sink::SinkExt;
@@ -20,7 +21,14 @@ use libp2p_swarm::{
 };
 use smallvec::SmallVec;
 use tracing::debug;
+#[cfg(not(beetswap_verif))]
 use web_time::Instant;
+
+#[cfg(beetswap_verif)]
+use crate::verif::clock::{Delay, Instant};
+#[cfg(beetswap_verif)]
+#[path = "verif/client.rs"]
+pub mod verif;
 
 use crate::incoming_stream::ClientMessage;
 use crate::message::Codec;
@@ -521,7 +529,7 @@ pub(crate) struct ClientConnectionHandler<const S: usize> {
 enum SinkState {
     None,
     Requested,
-    Ready(FramedWrite<libp2p_swarm::Stream, Codec>),
+    Ready(FramedWrite<crate::RawStream, Codec>),
 }
 
 impl<const S: usize> ClientConnectionHandler<S> {
@@ -529,7 +537,7 @@ impl<const S: usize> ClientConnectionHandler<S> {
         self.halted
     }
 
-    pub(crate) fn set_stream(&mut self, stream: libp2p_swarm::Stream) {
+    pub(crate) fn set_stream(&mut self, stream: crate::RawStream) {
         if self.halted {
             return;
         }
